@@ -111,13 +111,20 @@ func key(ns, name string) string {
 // New builds the client stack. withRevisions also starts the ControllerRevision informer (the
 // resource must be registered in the simulator).
 func New(s *sim.Server, withRevisions bool) (*Env, error) {
+	return NewWithDiscoveryInterval(s, withRevisions, 24*time.Hour)
+}
+
+// NewWithDiscoveryInterval: as New, with the API discovery refreshed in the background at the given
+// interval (the free-running workloads use a short one: refreshes run while workers look
+// resources up).
+func NewWithDiscoveryInterval(s *sim.Server, withRevisions bool, discoveryInterval time.Duration) (*Env, error) {
 	cfg := s.RESTConfig()
 	dc, err := discovery.NewDiscoveryClientForConfig(cfg)
 	if err != nil {
 		return nil, err
 	}
 	resources := dynamicdiscovery.NewResourceMap(dc)
-	resources.Start(24 * time.Hour)
+	resources.Start(discoveryInterval)
 	deadline := time.Now().Add(20 * time.Second)
 	for !resources.HasSynced() {
 		if time.Now().After(deadline) {
